@@ -96,6 +96,9 @@ def plan(prop, tier):
             model.append((n, kw, dict(maxfail=0, maxdata=2 if q else 3, envclose=False, invariants=["Inv_C06"])))
         for n, kw in single_cfgs(["cli", "srvP", "srvW"]):
             gen.append((n, kw, dict(budget=1 if q else 2, maxfail=0, maxdata=3, envclose=not q)))
+        # a peer that is cooperative but sends its data frames early: up to three of them at any point of the handshake
+        for n, kw in single_cfgs(["cli", "srvP", "srvW"]):
+            gen.append((n + "_early", kw, dict(budget=0 if q else 1, maxfail=0, maxdata=3, envclose=False, earlydata=True)))
         for n, kw in pair_cfgs(["P", "W"] if q else ["P", "A", "W"], [("none", "none")], (True,) if q else (True, False)):
             model.append((n, kw, dict(maxfail=0, maxdata=2, envclose=False, invariants=["Inv_C06_pair", "Inv_C06"])))
             sim.append((n, kw, dict(num=200 if q else 3000, depth=60, maxfail=0, maxdata=3, envclose=False)))
@@ -196,7 +199,7 @@ def run_check(prop, tier):
             args = dict(kw)
             args.update(defects=sme.DEFECTS, genmode="budget", budget=ex["budget"], maxfail=ex.get("maxfail", 1),
                         maxdata=ex.get("maxdata", 1), envclose=ex.get("envclose", True), emit="edge",
-                        action_constraints=["EmitEdge"])
+                        action_constraints=["EmitEdge"], earlydata=ex.get("earlydata", False))
             smegen.write(sd, name, **args)
             return lambda: sme.generate(sd, name, cfgd_of(name, kw), timeout=2400, workers=3)
 
